@@ -5,7 +5,7 @@
 //!   pretty replay <hex of text bytes> <position> <file|->
 use peginator::{ParseError, ParseErrorSpecifics, PrettyParseError};
 
-const ALPHABET: &[&str] = &["a", "é", "€", "\n", " ", "\r"];
+const ALPHABET: &[&str] = &["a", "é", "€", "\n", " ", "\r", "\t"];
 
 /// the contract, straight from the property statement
 fn expected(text: &str, pos: usize) -> (usize, usize, String) {
